@@ -5,7 +5,7 @@ for 1..4 leaves x every and/or labelling of the internal nodes x every gene labe
 time as the rules of the reactions of one small model, so that the four genes are shared between many reactions; for
 every model every subset G of the four genes (16) and EVERY order of G (65 sequences), knocked out through
   * "gene"  : Gene.knock_out(), one gene at a time in that order,
-  * "model" : cobra.manipulation.knock_out_model_genes(model, <G in that order>) (genes given as objects / ids / ints),
+  * "model" : cobra.manipulation.knock_out_model_genes(model, <G in that order>) (genes given as objects / ids / ints / mixed / with a repeat),
   * "rxn"   : Reaction.knock_out() on every reaction of the intact model, and on one reaction after the genes,
 outside a context, inside `with model:` and inside two nested contexts (first half of the knock-outs in the outer one).
 
@@ -178,6 +178,8 @@ def _as_form(case, order, form):
         return [case.model.genes.index(case.names[i]) for i in order]
     if form == "mixed":
         return [case.genes[i] if k % 2 else case.names[i] for k, i in enumerate(order)]
+    if form == "dup":  # the first gene is named twice
+        return [case.names[i] for i in order] + [case.genes[i] for i in order[:1]]
     raise ValueError(form)
 
 
@@ -241,7 +243,7 @@ def scenario(case, sc):
 # enumeration of the scenarios of one model
 # ----------------------------------------------------------------------------------------------------------------------
 def scenarios_for(case, rng, all_orders_upto, rxn_all=True):
-    forms = ["obj", "id", "int", "mixed"]
+    forms = ["obj", "id", "int", "mixed", "dup"]
     k = rng.randrange(1000)
     nr = len(case.rxns)
     for G in R.subsets(case.ng):
@@ -251,7 +253,7 @@ def scenarios_for(case, rng, all_orders_upto, rxn_all=True):
                     continue
                 k += 1
                 yield {"entry": "gene", "order": order, "ctx": ctx, "rxn": (k % nr) if k % 5 == 0 else None}
-                yield {"entry": "model", "order": order, "ctx": ctx, "form": forms[k % 4], "rxn": None}
+                yield {"entry": "model", "order": order, "ctx": ctx, "form": forms[k % 5], "rxn": None}
     if rxn_all:
         for j in range(nr):
             for ctx in (0, 1):
